@@ -151,6 +151,11 @@ impl BlockWriter {
         let mut offset: usize = 0;
         let mut stalled = false;
         loop {
+            if self.content_length_left == Some(0) {
+                // The whole content has been delivered, what remains is the trailer of the
+                // encoded stream: decoder_read() does not drain the decoder anymore
+                break;
+            }
             let size = self.decoder.as_mut().unwrap().write(&pkt[offset..])?;
             self.decoder_read(writer, now)?;
             offset += size;
